@@ -6,7 +6,7 @@ use crate::gen::{Cfg, ContentSpec, KeyType, Op, Workload, B, KEY_TYPES};
 use crate::props::gen_keys_hex;
 use crate::rng::Rng;
 
-pub const CONC_PROPS: [&str; 10] = ["C04", "C05", "C06", "C07", "C08", "C11", "C13", "C15", "C17", "C19"];
+pub const CONC_PROPS: [&str; 12] = ["C02", "C04", "C05", "C06", "C07", "C08", "C11", "C13", "C15", "C17", "C19", "C20"];
 
 fn small_sizes(rng: &mut Rng, n: usize, distinct: bool) -> Vec<ContentSpec> {
     let pool = [0usize, 1, 5, 44, 100, 300, 1000, 9000];
@@ -275,6 +275,8 @@ pub fn gen_case(prop: &str, seed: u64, tier: &str, _run: u64) -> Case {
 pub fn spec(prop: &str) -> Option<Spec> {
     let s = |id, level, q, t, rule| Some(Spec { id, build: "conc", level, quick_runs: q, thorough_runs: t, rule });
     match prop {
+        "C02" => s("C02", "exploration", 250, 2500, "concurrent part: C04-style programs (commits, removes, explicit and roll-over checkpoints racing each other, N in {1,2,3,10000}); at the end of every error-free schedule the store is closed normally and what an independent decode of snapshot (+) log yields must equal the index the API showed: a clean restart changes nothing also after a concurrent history"),
+        "C20" => s("C20", "exploration", 250, 2500, "concurrent part: the same programs with the on-disk monitors as the property's own oracles at every step (complete records, strictly increasing versions, segment ranges, snapshot complete, acknowledged versions present) and, at quiescence, snapshot (+) log decoded independently == the index the API shows"),
         "C04" => s("C04", "exploration", 400, 4000, "seeded programs of 2-4 tasks x 1-3 writer operations (puts biased to the same key / same content, removes, range removes, checkpoints, orphan clean-up) over 3 keys / 3 contents with a pre-history that leaves shared blobs, N in {1,2,3,10000}; 150 (quick) / 300 (thorough) seeded schedules per program under uniform / sticky / PCT / targeted strategies; MON-no-dangling after every step + end-state readable + linearizable; evaluation = one schedule; distinct = distinct (context-switch sequence, final state) fingerprints"),
         "C05" => s("C05", "exploration", 400, 4000, "programs of 2-4 tasks, <= 9 operations, <= 2 keys, every written value unique and of distinct size; readers (get/get_size/get_range/get_reader) against overwriting and removing writers on the hot key; invoke/response stamped by the scheduler's step counter; every read must be Ok and attributable; Wing-Gong search against the map model with two-point remove/remove_range; evaluation = one schedule"),
         "C06" => s("C06", "exploration", 300, 3000, "concurrent part: long-lived readers (first byte read, then drained after further scheduling points) against overwriting / removing writers of the same key; bytes must be one written content in full; MON-cas-immutable at every step"),
